@@ -35,6 +35,15 @@ func dogfoodEpochSecs(cfg Config) int64 {
 	return 60
 }
 
+// bigSpecs: "big" amounts are at most 2^80 unless the run is a trigger-allowed run for the known
+// integer-overflow findings (cfg.HugeAmounts), in which case they reach 2^255.
+func bigSpec(p *PRNG, huge bool) string {
+	if huge {
+		return []string{"2^64", "2^128", "2^200", "2^255"}[p.Intn(4)]
+	}
+	return []string{"2^40", "2^64", "2^80"}[p.Intn(3)]
+}
+
 func amtSpec(p *PRNG, big bool) string {
 	switch p.Intn(12) {
 	case 0:
@@ -45,7 +54,7 @@ func amtSpec(p *PRNG, big bool) string {
 		return "+1" // just over the base
 	case 3:
 		if big {
-			return []string{"2^64", "2^128", "2^200", "2^255"}[p.Intn(4)]
+			return bigSpec(p, hugeAmounts)
 		}
 		return "%999"
 	case 4, 5:
@@ -63,7 +72,7 @@ func depositSpec(p *PRNG, big bool) string {
 		return "=1"
 	case 1:
 		if big {
-			return []string{"2^64", "2^128", "2^200", "2^255"}[p.Intn(4)]
+			return bigSpec(p, hugeAmounts)
 		}
 		return "%10"
 	case 2:
@@ -74,7 +83,11 @@ func depositSpec(p *PRNG, big bool) string {
 }
 
 // GenLedgerPlan generates a plan over the restaking workload with faults.
+// hugeAmounts is set per generated plan from cfg.HugeAmounts (generation is single-threaded per process).
+var hugeAmounts bool
+
 func GenLedgerPlan(p *PRNG, cfg Config, o LedgerGenOpts) Plan {
+	hugeAmounts = cfg.HugeAmounts
 	if o.MaxBlocks == 0 {
 		o.MinBlocks, o.MaxBlocks = 25, 70
 	}
@@ -178,14 +191,14 @@ func GenLedgerPlan(p *PRNG, cfg Config, o LedgerGenOpts) Plan {
 				}
 			case "optin":
 				op.A, op.D = p.Intn(cfg.NOps), p.Intn(ConsKeyPool)
-				if p.Chance(1, 8) {
+				if p.Chance(1, 8) && op.A != 0 {
 					op.E = 1 + p.Intn(cfg.NOps) // somebody else's key
 				}
 			case "optout":
 				op.A = 1 + p.Intn(cfg.NOps-1) // operator 0 keeps the validator set non-empty (see DESIGN: stub contract)
 			case "setkey":
 				op.A, op.D = p.Intn(cfg.NOps), p.Intn(ConsKeyPool)
-				if p.Chance(1, 6) {
+				if p.Chance(1, 6) && op.A != 0 {
 					op.E = 1 + p.Intn(cfg.NOps)
 				}
 			case "send":
